@@ -204,6 +204,15 @@ fn canon(n: &Node, arow: i32, acol: i32) -> Node {
             Some(Node::RangeKind { sheet_name: sheet_name.clone(), sheet_index: *sheet_index, absolute_row1: ra.0, absolute_column1: ca.0, row1: ra.1, column1: ca.1,
                 absolute_row2: rb.0, absolute_column2: cb.0, row2: rb.1, column2: cb.1 })
         }
+        Node::WrongRangeKind { sheet_name, absolute_row1, absolute_column1, row1, column1, absolute_row2, absolute_column2, row2, column2 } => {
+            let pr = |abs: bool, v: i32, a: i32| if abs { v } else { v + a };
+            let (mut ra, mut rb) = ((*absolute_row1, *row1), (*absolute_row2, *row2));
+            let (mut ca, mut cb) = ((*absolute_column1, *column1), (*absolute_column2, *column2));
+            if pr(rb.0, rb.1, arow) < pr(ra.0, ra.1, arow) { std::mem::swap(&mut ra, &mut rb); }
+            if pr(cb.0, cb.1, acol) < pr(ca.0, ca.1, acol) { std::mem::swap(&mut ca, &mut cb); }
+            Some(Node::WrongRangeKind { sheet_name: sheet_name.clone(), absolute_row1: ra.0, absolute_column1: ca.0, row1: ra.1, column1: ca.1,
+                absolute_row2: rb.0, absolute_column2: cb.0, row2: rb.1, column2: cb.1 })
+        }
         Node::DefinedNameKind((name, _, _)) => Some(Node::NamedVariableKind { name: name.clone(), id: None }),
         _ => None,
     })
@@ -286,6 +295,8 @@ impl<'a> Run<'a> {
         // the debris a non-English lexer makes of an English error name depends on what follows it
         let tie = !(lang != "en" && contains(&n, &|x| matches!(x, Node::ErrorKind(_)) || array_has_error(x, false)))
             && !contains(&n, &|x| matches!(x, Node::ParseErrorKind { .. })) && !num_colon_num_text(&body)
+            // a reference that is off the grid already at the source (full-row / full-column spelling of its partner): C09's printer model
+            && (body.matches("#REF!").count() == text.matches("#REF!").count())
             // in a comma-decimal locale the hard-coded ',' is not a separator token at all (it continues or starts a
             // number, or is illegal): character level, oracle only (class moved_argument_separator_hard_coded)
             && !(!dot && contains(&n, &|x| match x {
@@ -373,7 +384,7 @@ fn main() {
         Ctx { src_sheet: 0, row: 3, col: 3, area: (3, 3, 1, 1), tgt_sheet: 0, drow: 4, dcol: 2 },
         Ctx { src_sheet: 0, row: 3, col: 3, area: (2, 2, 3, 3), tgt_sheet: 0, drow: 5, dcol: 4 },
         Ctx { src_sheet: 0, row: 3, col: 3, area: (2, 2, 3, 3), tgt_sheet: 0, drow: 1, dcol: -1 },
-        Ctx { src_sheet: 0, row: 3, col: 3, area: (1, 1, 3, 3), tgt_sheet: 0, drow: -1, dcol: 1 },
+        Ctx { src_sheet: 0, row: 3, col: 3, area: (2, 1, 3, 3), tgt_sheet: 0, drow: -1, dcol: 1 },
         Ctx { src_sheet: 0, row: 3, col: 3, area: (3, 2, 2, 1), tgt_sheet: 1, drow: 0, dcol: 0 },
         Ctx { src_sheet: 0, row: 3, col: 3, area: (2, 3, 1, 3), tgt_sheet: 1, drow: 2, dcol: 5 },
         Ctx { src_sheet: 0, row: 3, col: 3, area: (3, 3, 2, 2), tgt_sheet: 2, drow: -2, dcol: -2 },
